@@ -306,3 +306,115 @@ func isImportPrinterCall(p *core.Program, info *types.Info, c *ast.CallExpr) boo
 	ip := importPrinter(p)
 	return ip != nil && ip.Obj() != nil && core.CalleeFunc(info, c) == ip.Obj()
 }
+
+// trackerCall: the name of the import-tracker method a call invokes ("AddType", "LocalNameOf", ...), or "". The call
+// may go through the exported ImportTracker interface, through a narrower interface of pkg/namer that ImportTracker
+// satisfies (an unexported `importResolver` with two of its methods), or through the concrete tracker type.
+func trackerCall(p *core.Program, info *types.Info, c *ast.CallExpr) string {
+	fn := core.CalleeFunc(info, c)
+	if fn == nil {
+		return ""
+	}
+	sig, _ := fn.Type().(*types.Signature)
+	if sig == nil || sig.Recv() == nil || fn.Pkg() == nil || core.RelPkg(fn.Pkg().Path()) != "pkg/namer" {
+		return ""
+	}
+	it := fn.Pkg().Scope().Lookup("ImportTracker")
+	if it == nil {
+		return ""
+	}
+	full, _ := it.Type().Underlying().(*types.Interface)
+	if full == nil {
+		return ""
+	}
+	rt := sig.Recv().Type()
+	if iface, ok := rt.Underlying().(*types.Interface); ok {
+		// every method of the interface is one of ImportTracker's, with the same signature
+		if types.Implements(it.Type(), iface) {
+			return fn.Name()
+		}
+		return ""
+	}
+	if types.Implements(rt, full) || types.Implements(types.NewPointer(rt), full) {
+		return fn.Name()
+	}
+	return ""
+}
+
+// namerRewriter: the function of pkg/namer that rewrites the package paths nested in a reference's name: the one that
+// parses the name with ParseTypeRef (today (*rawNamer).processName; a plain function after a refactoring).
+func namerRewriter(p *core.Program) *core.Func {
+	for _, cs := range callersOf(p, core.G("pkg/types.ParseTypeRef")) {
+		if core.RelPkg(cs.In.Pkg.PkgPath) == "pkg/namer" && cs.In.Body != nil {
+			return cs.In.Root()
+		}
+	}
+	return nil
+}
+
+// registerAndName: helpers of pkg/namer whose body is exactly `<tr>.AddType(<t>); return <tr>.LocalNameOf(<p>)` with
+// tr, t and p parameters. A call of such a helper is a registration and the lookup of the registered name in one; the
+// rules about the pair are decided where the helper is called, with its arguments.
+type regNameHelper struct {
+	F         *core.Func
+	Tr, T, Pa int // parameter indexes of the tracker, the registered type and the path asked for
+}
+
+func registerAndNameHelpers(p *core.Program) map[*types.Func]regNameHelper {
+	out := map[*types.Func]regNameHelper{}
+	for _, f := range p.Funcs() {
+		if core.RelPkg(f.Pkg.PkgPath) != "pkg/namer" || f.Decl == nil || f.Body == nil || f.Obj() == nil || len(f.Body.List) != 2 {
+			continue
+		}
+		info := f.Info()
+		es, ok1 := f.Body.List[0].(*ast.ExprStmt)
+		ret, ok2 := f.Body.List[1].(*ast.ReturnStmt)
+		if !ok1 || !ok2 || len(ret.Results) != 1 {
+			continue
+		}
+		add, okA := ast.Unparen(es.X).(*ast.CallExpr)
+		loc, okL := ast.Unparen(ret.Results[0]).(*ast.CallExpr)
+		if !okA || !okL || trackerCall(p, info, add) != "AddType" || trackerCall(p, info, loc) != "LocalNameOf" || len(add.Args) != 1 || len(loc.Args) != 1 {
+			continue
+		}
+		idx := func(e ast.Expr) int {
+			v := core.VarOf(info, e)
+			if v == nil || !isParamOf(f, v) {
+				return -1
+			}
+			return paramIndex(f, v)
+		}
+		tr1, tr2, t, pa := idx(recvOf(add)), idx(recvOf(loc)), idx(add.Args[0]), idx(loc.Args[0])
+		if tr1 < 0 || tr1 != tr2 || t < 0 || pa < 0 {
+			continue
+		}
+		out[f.Obj()] = regNameHelper{F: f, Tr: tr1, T: t, Pa: pa}
+	}
+	return out
+}
+
+// ownPathOperand: the expression denotes the path of the package a namer renders for: the namer's own field, or a
+// parameter of an unexported function of pkg/namer that receives that field at every call.
+func ownPathOperand(p *core.Program, f *core.Func, e ast.Expr) bool {
+	info := f.Info()
+	if isRole(p, core.FieldOf(info, e), "namer.pkgPath") {
+		return true
+	}
+	v := core.VarOf(info, e)
+	root := f.Root()
+	if v == nil || !isParamOf(root, v) || root.Obj() == nil || root.Decl == nil || root.Decl.Name.IsExported() {
+		return false
+	}
+	k := paramIndex(root, v)
+	n := 0
+	for _, cs := range allCalls(p) {
+		if cs.In.Body == nil || core.CalleeFunc(cs.In.Info(), cs.Call) != root.Obj() {
+			continue
+		}
+		n++
+		if k >= len(cs.Call.Args) || !isRole(p, core.FieldOf(cs.In.Info(), cs.Call.Args[k]), "namer.pkgPath") {
+			return false
+		}
+	}
+	return n > 0
+}
